@@ -18,7 +18,7 @@
    Only [exact lemma] statements followed by Print Assumptions. *)
 From Coq Require Import ZArith List Bool.
 From S3db Require Import Base KeyOrder RowMerge Tree Store KvProto Inst Stmt Mast.
-From S3db.proofs Require Import KeyOrderProofs RowMergeProofs TreeProofs StmtProofs ScanProofs MastProofs MastLevelProofs MastInvProofs MastExamples.
+From S3db.proofs Require Import KeyOrderProofs RowMergeProofs TreeProofs StmtProofs ScanProofs MastProofs MastLevelProofs MastInvProofs MastDelProofs MastExamples.
 Import ListNotations.
 Open Scope Z_scope.
 
@@ -155,6 +155,18 @@ Theorem C06_multilevel_inserts_never_panic_and_lookups_are_map_lookups
     mast_flat m' = fold_left (fun t kv => t_insert (fst kv) (snd kv) t) ops (mast_flat m) /\
     forall k, P k -> mast_get m' k = t_get k (mast_flat m').
 Proof. exact (inserts_never_panic_and_refine bf P P_layers P_safe ops m). Qed.
+(* ... and every history of Inserts AND Deletes (Delete, node merging and the shrink loop keep the
+   level discipline too; a Delete of an absent key is refused and changes nothing) *)
+Theorem C06_multilevel_histories_never_panic_and_lookups_are_map_lookups
+  {V : Type} (bf : Z) (P : sval -> Prop)
+  (P_layers : forall a b, P a -> P b -> order_t a b = Eq -> klayer bf a = klayer bf b)
+  (P_safe : forall a, P a -> D a) (ops : list (mop (V := V))) (m : mast V) :
+  MInv bf P m -> Forall (fun o => P (mop_key o)) ops ->
+  exists m', run_mops m ops = Some m' /\ MInv bf P m' /\
+    mast_flat m' = fold_left list_step ops (mast_flat m) /\
+    forall k, P k -> mast_get m' k = t_get k (mast_flat m').
+Proof. exact (histories_never_panic_and_refine bf P P_layers P_safe ops m). Qed.
+
 Theorem C06_the_empty_tree_meets_the_invariant {V : Type} bf P : MInv (V := V) bf P (mast_empty bf).
 Proof. exact (empty_inv bf P). Qed.
 
@@ -191,3 +203,4 @@ Print Assumptions C06_three_level_tree_example.
 Print Assumptions C06_descending_walk_refuted.
 Print Assumptions C06_multilevel_inserts_never_panic_and_lookups_are_map_lookups.
 Print Assumptions C06_the_empty_tree_meets_the_invariant.
+Print Assumptions C06_multilevel_histories_never_panic_and_lookups_are_map_lookups.
